@@ -187,11 +187,16 @@ theorem minGap_sim (hav : Pos → Pos → Nat) (s : State) (m : MinGapSt) (op : 
           omega
       simp [minGapMon, hct, hgap, hs, afterSend, hA, ha, pre, rearm]
 
-/-! the hold across a stop/start cycle: how the time of the last CAM of ANY activation shows in the state -/
+/-! the hold across a stop/start cycle: how the time of the last CAM of ANY activation shows in the state.
+Any number of stop/start cycles may follow that CAM without a further CAM: the relation is preserved by every
+quiet step (`holdRel_quiet`), so the hold is still there at the third, fourth ... activation.  In the variant
+`holdSticky = false` (hold reassigned unconditionally by `start()`) the hold may have been cleared by a later
+start(): third disjunct. -/
 def HoldRel (s : State) (g : Option Nat) : Prop :=
   match g with
   | none => s.lastCamTime = none ∧ s.holdUntil = none
-  | some t => s.lastCamTime = some t ∨ (s.lastCamTime = none ∧ s.holdUntil = some (t + T_GEN_CAM_MIN))
+  | some t => s.lastCamTime = some t ∨
+      (s.lastCamTime = none ∧ (s.holdUntil = some (t + T_GEN_CAM_MIN) ∨ (s.cfg.holdSticky = false ∧ s.holdUntil = none)))
 
 theorem holdRel_quiet (hav : Pos → Pos → Nat) (s : State) (g : Option Nat) (op : Op)
     (h : HoldRel s g) (hq : (step hav s op).2 = none) : HoldRel (step hav s op).1 g := by
@@ -204,8 +209,9 @@ theorem holdRel_quiet (hav : Pos → Pos → Nat) (s : State) (g : Option Nat) (
         obtain ⟨h1, h2⟩ := h
         simp [step, ha, HoldRel, h1, h2]
       | some t =>
-        rcases h with h1 | ⟨h1, h2⟩
+        rcases h with h1 | ⟨h1, h2 | ⟨h2, _⟩⟩
         · simp [step, ha, HoldRel, h1]
+        · cases hs : s.cfg.holdSticky <;> simp [step, ha, HoldRel, h1, h2, hs]
         · simp [step, ha, HoldRel, h1, h2]
   | stop => cases g <;> simpa [step, HoldRel] using h
   | report r => cases g <;> simpa [step, HoldRel] using h
@@ -217,7 +223,7 @@ theorem holdRel_quiet (hav : Pos → Pos → Nat) (s : State) (g : Option Nat) (
 
 /-- an emission in the repaired variants: at least T_GenCamMin after the last CAM of any activation -/
 theorem holdRel_emit (hav : Pos → Pos → Nat) (s : State) (g : Option Nat) (now : Nat) (f : Fail) (c : CamOut)
-    (hI : s.cfg.ldmIsolated = true) (hH : s.cfg.restartHold = true)
+    (hI : s.cfg.ldmIsolated = true) (hH : s.cfg.restartHold = true) (hS : s.cfg.holdSticky = true)
     (h : HoldRel s g) (hc : (check hav s now f).2 = some c) :
     noneOrSince g T_GenCamMin now = true ∧ HoldRel (check hav s now f).1 (some now) := by
   obtain ⟨ha, r, cond, _, htr, hcx, hs⟩ := check_some_iso hav s now f c hI hc
@@ -229,40 +235,85 @@ theorem holdRel_emit (hav : Pos → Pos → Nat) (s : State) (g : Option Nat) (n
     | some t =>
       simp only [noneOrSince, T_GenCamMin]
       apply decide_eq_true
-      rcases h with h1 | ⟨h1, h2⟩
+      rcases h with h1 | ⟨h1, h2 | ⟨h2, _⟩⟩
       · have := trigger_elapsed hav s r now cond t htr h1
         omega
       · have hh := trigger_first hav s r now cond htr h1
         simp [held, hH, h2] at hh
         omega
+      · rw [hS] at h2; simp at h2
   · rw [hs]; left; simp [afterSend]
 
 def GMinRel (s : State) (m : GMinGapSt) : Prop :=
-  s.cfg.ldmIsolated = true ∧ s.cfg.restartHold = true ∧ HoldRel s m.last
+  s.cfg.ldmIsolated = true ∧ s.cfg.restartHold = true ∧ s.cfg.holdSticky = true ∧ HoldRel s m.last
 
 theorem gMinGap_sim (hav : Pos → Pos → Nat) (s : State) (m : GMinGapSt) (op : Op) (hR : GMinRel s m) :
     ∃ m', gMinGapMon m (op, (step hav s op).2) = some m' ∧ GMinRel (step hav s op).1 m' := by
-  obtain ⟨hI, hH, hG⟩ := hR
+  obtain ⟨hI, hH, hS, hG⟩ := hR
   have hcfg := step_cfg hav s op
   cases hq : (step hav s op).2 with
   | none =>
-    refine ⟨m, ?_, by rw [hcfg]; exact hI, by rw [hcfg]; exact hH, holdRel_quiet hav s m.last op hG hq⟩
+    refine ⟨m, ?_, by rw [hcfg]; exact hI, by rw [hcfg]; exact hH, by rw [hcfg]; exact hS,
+      holdRel_quiet hav s m.last op hG hq⟩
     cases op <;> rfl
   | some c =>
     cases op with
     | check now f =>
       simp only [step] at hq ⊢
-      obtain ⟨hgap, hrel⟩ := holdRel_emit hav s m.last now f c hI hH hG hq
+      obtain ⟨hgap, hrel⟩ := holdRel_emit hav s m.last now f c hI hH hS hG hq
       obtain ⟨_, r, cond, _, _, hcx, _⟩ := check_some_iso hav s now f c hI hq
       have hct : c.t = now := by rw [hcx]; rfl
-      refine ⟨{ last := some now }, by simp [gMinGapMon, hct, hgap], ?_, ?_, hrel⟩
+      refine ⟨{ last := some now }, by simp [gMinGapMon, hct, hgap], ?_, ?_, ?_, hrel⟩
       · have := step_cfg hav s (.check now f); simp only [step] at this; rw [this]; exact hI
       · have := step_cfg hav s (.check now f); simp only [step] at this; rw [this]; exact hH
+      · have := step_cfg hav s (.check now f); simp only [step] at this; rw [this]; exact hS
     | start => by_cases ha : s.active = true <;> simp [step, ha] at hq
     | stop => simp [step] at hq
     | report r => simp [step] at hq
     | expire tr => simp [step] at hq
 
+
+/-! the hold survives any CAM-free continuation (several restarts in a row) -/
+theorem final_cfg (hav : Pos → Pos → Nat) : ∀ (ops : List Op) (s : State),
+    (Mon.final (step hav) s ops).cfg = s.cfg := by
+  intro ops
+  induction ops with
+  | nil => intro s; rfl
+  | cons op ops ih => intro s; simp only [Mon.final]; rw [ih, step_cfg]
+
+theorem holdRel_quiet_list (hav : Pos → Pos → Nat) : ∀ (ops : List Op) (s : State) (g : Option Nat),
+    HoldRel s g → (∀ e ∈ Mon.events (step hav) s ops, e.2 = none) → HoldRel (Mon.final (step hav) s ops) g := by
+  intro ops
+  induction ops with
+  | nil => intro s g h _; exact h
+  | cons op ops ih =>
+    intro s g h hq
+    simp only [Mon.final]
+    simp only [Mon.events, List.mem_cons, forall_eq_or_imp] at hq
+    exact ih _ g (holdRel_quiet hav s g op h hq.1) hq.2
+
+theorem hold_survives (hav : Pos → Pos → Nat) (cfg : Cfg) (hS : cfg.holdSticky = true)
+    (pre quiet : List Op) (t : Nat) (f : Fail) (c : CamOut)
+    (hcam : (step hav (Mon.final (step hav) (init cfg) pre) (.check t f)).2 = some c)
+    (hbk : f.bookkept cfg = true)
+    (hq : ∀ e ∈ Mon.events (step hav) (step hav (Mon.final (step hav) (init cfg) pre) (.check t f)).1 quiet, e.2 = none) :
+    let s := Mon.final (step hav) (step hav (Mon.final (step hav) (init cfg) pre) (.check t f)).1 quiet
+    s.lastCamTime = some t ∨ (s.lastCamTime = none ∧ s.holdUntil = some (t + T_GEN_CAM_MIN)) := by
+  intro s
+  have hc0 : (Mon.final (step hav) (init cfg) pre).cfg = cfg := by rw [final_cfg]; rfl
+  have h1 : HoldRel (step hav (Mon.final (step hav) (init cfg) pre) (.check t f)).1 (some t) := by
+    simp only [step] at hcam ⊢
+    obtain ⟨_, _, r, cond, _, _, _, hs⟩ := check_some hav _ t f c hcam
+    rw [hs, hc0, if_pos hbk]
+    left; simp [afterSend]
+  have h2 := holdRel_quiet_list hav quiet _ (some t) h1 hq
+  have hcs : s.cfg.holdSticky = true := by
+    show (Mon.final (step hav) _ quiet).cfg.holdSticky = true
+    rw [final_cfg, step_cfg, hc0]; exact hS
+  rcases h2 with h | ⟨h, h' | ⟨h', _⟩⟩
+  · exact Or.inl h
+  · exact Or.inr ⟨h, h'⟩
+  · rw [hcs] at h'; simp at h'
 
 /-! LF -/
 def LfRel (s : State) (m : LfSt) : Prop :=
@@ -418,13 +469,14 @@ theorem held_heldSpec (s : State) (g : Option Nat) (now : Nat) (hG : HoldRel s g
     obtain ⟨_, h2⟩ := hG
     rw [h2] at hh; simp at hh
   | some t =>
-    rcases hG with h1 | ⟨_, h2⟩
+    rcases hG with h1 | ⟨_, h2 | ⟨_, h2⟩⟩
     · rw [hl] at h1; simp at h1
     · rw [h2] at hh
       simp only [decide_eq_true_eq] at hh
       simp only [heldSpec, hH, T_GenCamMin, Bool.true_and]
       apply decide_eq_true
       omega
+    · rw [h2] at hh; simp at hh
 
 def MaxRel (hold : Bool) (s : State) (m : MaxGapSt) : Prop :=
   s.cfg.ldmIsolated = true ∧ s.cfg.restartHold = hold ∧
